@@ -10,3 +10,49 @@ Definition T_time := s2l "time".
 Definition T_datetime := s2l "datetime-local".
 Definition T_number := s2l "number".
 Definition T_range := s2l "range".
+
+Definition NS_XHTML := s2l "http://www.w3.org/1999/xhtml".
+Definition NS_XML := s2l "http://www.w3.org/XML/1998/namespace".
+Definition L_iframe := s2l "iframe".
+Definition L_star := s2l "*".
+Definition L_class := s2l "class".
+Definition L_id := s2l "id".
+Definition L_ltr := s2l "ltr".
+Definition L_rtl := s2l "rtl".
+Definition L_auto := s2l "auto".
+Definition L_bdi := s2l "bdi".
+Definition L_script := s2l "script".
+Definition L_style := s2l "style".
+Definition L_textarea := s2l "textarea".
+Definition L_text := s2l "text".
+Definition L_search := s2l "search".
+Definition L_tel := s2l "tel".
+Definition L_url := s2l "url".
+Definition L_email := s2l "email".
+Definition L_input := s2l "input".
+Definition L_type := s2l "type".
+Definition L_value := s2l "value".
+Definition L_dir := s2l "dir".
+Definition L_min := s2l "min".
+Definition L_max := s2l "max".
+Definition L_lang := s2l "lang".
+Definition L_html := s2l "html".
+Definition L_head := s2l "head".
+Definition L_meta := s2l "meta".
+Definition L_http_equiv := s2l "http-equiv".
+Definition L_content := s2l "content".
+Definition L_content_language := s2l "content-language".
+Definition L_form := s2l "form".
+Definition L_button := s2l "button".
+Definition L_submit := s2l "submit".
+Definition L_name := s2l "name".
+Definition L_checked := s2l "checked".
+Definition L_radio := s2l "radio".
+Definition REL_PARENT := s2l " ".
+Definition REL_CLOSE_PARENT := s2l ">".
+Definition REL_SIBLING := s2l "~".
+Definition REL_CLOSE_SIBLING := s2l "+".
+Definition REL_HAS_PARENT := s2l ": ".
+Definition REL_HAS_CLOSE_PARENT := s2l ":>".
+Definition REL_HAS_SIBLING := s2l ":~".
+Definition REL_HAS_CLOSE_SIBLING := s2l ":+".
